@@ -86,7 +86,7 @@ def strategy(tier):
 
 
 def budget(tier):
-    return 130 if tier == "quick" else 4000
+    return 130 if tier == "quick" else 1500
 
 
 def classify(case):
